@@ -1,8 +1,8 @@
 (* Scalars.v — Rust's [FromStr] (what dropshot's [from_map.rs] [de_value!] and
    [serde_urlencoded]'s [forward_parsed_value!] call) and [Display] for the
    scalar types a path / query / form parameter can have: [bool], the integer
-   types [u8 .. u128], [i8 .. i128], [char], [String], and unit-variant enums
-   (matched by wire name).  [f32]/[f64] are OUT OF SCOPE of this model (Rust's
+   types [u8 .. u128], [i8 .. i128], [char], [String], unit-variant enums
+   (matched by wire name) and [uuid::Uuid].  [f32]/[f64] are OUT OF SCOPE of this model (Rust's
    float grammar and rounding are not transcribed); no case uses them.
 
    Integers ([core::num] [from_str_radix] with radix 10):
@@ -26,21 +26,23 @@
    unbounded [N] and range-checks once.
 
    Model only; proofs in ScalarsProofs.v. *)
-From DS Require Import Base Utf8.
+From DS Require Import Base Utf8 Pct.
 
 Inductive sty :=
 | TStr
 | TBool
 | TChar
 | TInt (signed : bool) (bits : N)
-| TEnum (variants : list str).
+| TEnum (variants : list str)
+| TUuid.                (* uuid::Uuid (string schema, format uuid) *)
 
 Inductive sval :=
 | VStr (s : str)
 | VBool (b : bool)
 | VChar (c : N)
 | VInt (z : Z)
-| VEnum (name : str).
+| VEnum (name : str)
+| VUuid (bytes : list N). (* the 16 bytes *)
 
 (* ---------- integers ---------- *)
 
@@ -167,6 +169,85 @@ Definition parse_char (s : str) : option N :=
   | _ => None
   end.
 
+(* ---------- uuid::Uuid (uuid 1.16 parser.rs) ----------
+
+     const fn try_parse(input: &[u8]) -> Result<[u8; 16], InvalidUuid> {
+         match (input.len(), input) {
+             (32, s) => parse_simple(s),
+             (36, s)
+             | (38, [b'{', s @ .., b'}'])
+             | (45, [b'u', b'r', b'n', b':', b'u', b'u', b'i', b'd', b':', s @ ..]) => parse_hyphenated(s),
+             _ => Err(InvalidUuid(input)),
+         } }
+
+   parse_simple: 32 hex digits (either case, HEX_TABLE); parse_hyphenated:
+   length 36, '-' at 8, 13, 18, 23, hex digits everywhere else.  Display is
+   the lower-case hyphenated form.  ([Uuid]'s Deserialize for a
+   human-readable format is [deserialize_str] -> [Uuid::from_str].) *)
+
+Fixpoint hex_pairs (s : str) : option (list N) :=
+  match s with
+  | [] => Some []
+  | h :: l :: rest =>
+      match hex_val h, hex_val l, hex_pairs rest with
+      | Some a, Some b, Some bs => Some ((16 * a + b) :: bs)
+      | _, _, _ => None
+      end
+  | [_] => None
+  end.
+
+Definition parse_uuid_simple (s : str) : option (list N) :=
+  if (length s =? 32)%nat then hex_pairs s else None.
+
+Definition HYPHEN : N := 45.
+
+(* 8-4-4-4-12 with '-' between the groups *)
+Definition parse_uuid_hyphenated (s : str) : option (list N) :=
+  if negb (length s =? 36)%nat then None else
+  let g1 := firstn 8 s in let r1 := skipn 8 s in
+  let g2 := firstn 4 (skipn 1 r1) in let r2 := skipn 5 r1 in
+  let g3 := firstn 4 (skipn 1 r2) in let r3 := skipn 5 r2 in
+  let g4 := firstn 4 (skipn 1 r3) in let r4 := skipn 5 r3 in
+  let g5 := skipn 1 r4 in
+  match r1, r2, r3, r4 with
+  | h1 :: _, h2 :: _, h3 :: _, h4 :: _ =>
+      if (h1 =? HYPHEN) && (h2 =? HYPHEN) && (h3 =? HYPHEN) && (h4 =? HYPHEN)
+      then hex_pairs (g1 ++ g2 ++ g3 ++ g4 ++ g5) else None
+  | _, _, _, _ => None
+  end.
+
+Definition URN_UUID : str := [117; 114; 110; 58; 117; 117; 105; 100; 58].   (* urn:uuid: *)
+
+Definition parse_uuid (s : str) : option (list N) :=
+  let n := length s in
+  if (n =? 32)%nat then parse_uuid_simple s
+  else if (n =? 36)%nat then parse_uuid_hyphenated s
+  else if (n =? 38)%nat then
+    match s with
+    | 123 :: rest =>
+        match rev rest with
+        | 125 :: inner_rev => parse_uuid_hyphenated (rev inner_rev)
+        | _ => None
+        end
+    | _ => None
+    end
+  else if (n =? 45)%nat then
+    if str_eqb (firstn 9 s) URN_UUID then parse_uuid_hyphenated (skipn 9 s) else None
+  else None.
+
+Fixpoint hex_lower (bs : list N) : str :=
+  match bs with
+  | [] => []
+  | b :: t => hex_digit_lower (b / 16) :: hex_digit_lower (b mod 16) :: hex_lower t
+  end.
+
+Definition print_uuid (bs : list N) : str :=
+  hex_lower (firstn 4 bs) ++ HYPHEN :: hex_lower (firstn 2 (skipn 4 bs)) ++
+  HYPHEN :: hex_lower (firstn 2 (skipn 6 bs)) ++ HYPHEN :: hex_lower (firstn 2 (skipn 8 bs)) ++
+  HYPHEN :: hex_lower (skipn 10 bs).
+
+Definition uuid_ok (bs : list N) : bool := (length bs =? 16)%nat && bytes_ok bs.
+
 (* ---------- all scalar types ---------- *)
 
 Definition parse_scalar (ty : sty) (s : str) : option sval :=
@@ -176,6 +257,7 @@ Definition parse_scalar (ty : sty) (s : str) : option sval :=
   | TChar => option_map VChar (parse_char s)
   | TInt sg bits => option_map VInt (parse_int sg bits s)
   | TEnum vs => if mem_str s vs then Some (VEnum s) else None
+  | TUuid => option_map VUuid (parse_uuid s)
   end.
 
 Definition print_scalar (v : sval) : str :=
@@ -185,6 +267,7 @@ Definition print_scalar (v : sval) : str :=
   | VChar c => utf8_encode c
   | VInt z => print_int z
   | VEnum n => n
+  | VUuid bs => print_uuid bs
   end.
 
 (* [v] is a value of type [ty] *)
@@ -195,6 +278,7 @@ Definition sval_ok (ty : sty) (v : sval) : bool :=
   | TChar, VChar c => is_scalar c
   | TInt sg bits, VInt z => int_in_range sg bits z
   | TEnum vs, VEnum n => mem_str n vs
+  | TUuid, VUuid bs => uuid_ok bs
   | _, _ => false
   end.
 
@@ -205,6 +289,7 @@ Definition sval_eqb (a b : sval) : bool :=
   | VChar x, VChar y => x =? y
   | VInt x, VInt y => (x =? y)%Z
   | VEnum x, VEnum y => str_eqb x y
+  | VUuid x, VUuid y => str_eqb x y
   | _, _ => false
   end.
 
